@@ -185,6 +185,23 @@ def runChecker (c : CheckerCase) : Json :=
       ("oldExpected", jArr ((sortPairs (old.map fun p => (p.1, jNat p.2))).map fun p => jArr [jStr p.1, p.2]))])
   ]
 
+/-! ## invariant evaluation domain: `for invariant in invariants: _assert_invariant(...)` on one instance -/
+
+structure InvCase where
+  contracts : List Contract
+  self : Id := 1
+  cond : List (CId × Ans) := []
+  fac : List (CId × FacAns) := []
+  msg : List (CId × MsgAns) := []
+deriving FromJson
+
+def runInvariants (c : InvCase) : Json :=
+  let o : Oracle := { cond := fun i => lookupD c.cond i (.val 0 .truthy), capture := fun _ => .val 0 .truthy, body := .ret 0,
+                      fac := fun i => lookupD c.fac i .nonExc, msg := fun i => lookupD c.msg i .ok }
+  let r := assertInvariants o [("self", .obj c.self)] c.contracts
+  Json.mkObj [("trace", jArr (r.trace.map eventJson)),
+              ("out", match r.out with | .ok _ => jArr [jStr "ret", Json.null] | .error e => jArr [jStr "raise", raisedJson e])]
+
 /-! ## definition-time domain -/
 
 deriving instance FromJson, ToJson for ErrArg
@@ -752,6 +769,10 @@ def handle (line : String) : String :=
       match (fromJson? j : Except String CheckerCase) with
       | .ok c => (runChecker c).compress
       | .error e => (Json.mkObj [("error", jStr s!"decode checker: {e}")]).compress
+    | .ok "invariants" =>
+      match (fromJson? j : Except String InvCase) with
+      | .ok c => (runInvariants c).compress
+      | .error e => (Json.mkObj [("error", jStr s!"invariants: {e}")]).compress
     | .ok "expr" =>
       match ExRun.run j with
       | .ok r => r.compress
